@@ -47,6 +47,8 @@ def run(ctx, tier):
         ctx.rule(r, t)
     ctx.rule("P6", "(second copy of the PATH set) path_signature_table flags exactly the bytes of the path percent-encode set: "
                    "no byte outside 0x21..0x7E is copied verbatim by the prepared-path shortcuts")
+    ctx.rule("P9", "(shared with C10.H7) the address serializers switch digit counts at 0x10 / 0x100 / 0x1000 and 10 / 100, compress a "
+                   "zero run only when longer than one piece, and count eight pieces: a serialised address re-parses to itself")
     ctx.rule("P8", "(shared with C10.H9) the IPv6 parsers store the address the literal denotes: the overlapping move of the pieces "
                    "behind '::' runs from the last piece down (otherwise the serialised address re-parses to a different one)")
     ctx.rule("P7", "both ASCII lower-casing kernels (the one on the host parsers' cheap path and the one inside the IDNA route) "
@@ -61,6 +63,8 @@ def run(ctx, tier):
         swar.check(ctx, fxs[name], "P7")
         from rules import c10 as _c10
         _c10.check_ipv6_move(ctx, fxs[name], "P8")
+        from rules import c10_limits
+        c10_limits.check(ctx, fxs[name], "P9", table=c10_limits.SERIALIZER_LIMITS, floor=4, what="the digit counts of the serializers")
 
 
 def check(ctx, fx):
